@@ -178,10 +178,16 @@ def apply(st, ev, typedef_labels=False):
 SPELLING = 0
 SPELLINGS = {
     0: {"td": "typedef int %(n)s ;", "obj": "int %(n)s ;"},
-    1: {"td": "typedef struct { int m ; } %(n)s ;", "obj": "struct { int m ; } %(n)s = { 1 } ;"},
-    2: {"td": "typedef int * %(n)s [ 2 ] ;", "obj": "unsigned long * %(n)s [ 2 ] ;"},
-    3: {"td": "typedef enum Z%(i)d %(n)s ;", "obj": "struct Z * %(n)s , * * w%(i)d ;"},
-    4: {"td": "typedef int ( %(n)s ) ;", "obj": "struct Z ( * %(n)s ) = 0 , w%(i)d ;"},
+    # function definitions: implicit int, K&R identifier list, parenthesised
+    # and pointer-returning declarators - the parameter must live in the body's block
+    1: {"td": "typedef struct { int m ; } %(n)s ;", "obj": "struct { int m ; } %(n)s = { 1 } ;",
+        "open_fn": "g%(i)d ( int %(n)s ) {"},
+    2: {"td": "typedef int * %(n)s [ 2 ] ;", "obj": "unsigned long * %(n)s [ 2 ] ;",
+        "open_fn": "void g%(i)d ( int u%(i)d , int %(n)s ) {"},
+    3: {"td": "typedef enum Z%(i)d %(n)s ;", "obj": "struct Z * %(n)s , * * w%(i)d ;",
+        "open_fn": "int ( g%(i)d ( int %(n)s ) ) {"},
+    4: {"td": "typedef int ( %(n)s ) ;", "obj": "struct Z ( * %(n)s ) = 0 , w%(i)d ;",
+        "open_fn": "static int * g%(i)d ( int u%(i)d , int %(n)s , ... ) {"},
 }
 
 
@@ -200,7 +206,7 @@ def text(ev, idx):
         "member": "struct S%d { int %s ; } ;" % (idx, n),
         "label": "%s : ;" % n,
         "proto": "void h%d ( int %s ) ;" % (idx, n),
-        "open_fn": "void g%d ( int %s ) {" % (idx, n),
+        "open_fn": sp.get("open_fn", "void g%(i)d ( int %(n)s ) {") % {"n": n, "i": idx},
         "open": "{",
         "close": "}",
         "init": "int z%d [ ] = { 0 } ;" % idx,
